@@ -285,6 +285,11 @@ var quoteEscaper = strings.NewReplacer("\\", "\\\\", `"`, "\\\"")
 // writer). closing=false leaves the final boundary out (a truncated form).
 func refBody(fs *formSpec, closing bool) ([]byte, error) {
 	var buf bytes.Buffer
+	total := 256
+	for i := range fs.Parts {
+		total += len(fs.Parts[i].Content) + len(fs.Parts[i].Value) + len(fs.Parts[i].Name) + 512
+	}
+	buf.Grow(total)
 	mw := multipart.NewWriter(&buf)
 	if err := mw.SetBoundary(fs.Boundary); err != nil {
 		return nil, err
@@ -348,7 +353,13 @@ func readFile(fh *multipart.FileHeader) ([]byte, error) {
 		return nil, err
 	}
 	defer f.Close()
-	return io.ReadAll(f)
+	// exactly Size bytes are expected; anything beyond is returned too (so that it shows as a difference)
+	b := make([]byte, fh.Size, fh.Size+512)
+	if _, err := io.ReadFull(f, b); err != nil {
+		return nil, err
+	}
+	rest, err := io.ReadAll(f)
+	return append(b, rest...), err
 }
 
 // matchesSpec compares a parsed form with the spec (values, file contents).
